@@ -600,6 +600,34 @@ func (c *c08ctx) runFastForwardResponses(msgs int) bool {
 				// C08 makes about it; only crashes are judged for the rest of the batch.
 				c.adoptedForgery = true
 				c.res.count("victim_adopted_a_rule_satisfying_forgery", 1)
+				// what its background loop does next: ask the peer selector for a
+				// gossip target, gossip, record the outcome, ask again
+				gr := guard(func() {
+					for k := 0; k < 3; k++ {
+						p := cu.Core.SelectorNext()
+						if p == nil {
+							cu.Node.VerifMonologue()
+							continue
+						}
+						err := cu.Node.VerifGossip(p)
+						cu.Core.SelectorUpdateLast(p.ID(), err == nil)
+					}
+				})
+				c.res.count("gossip_rounds_after_an_adopted_forgery", 1)
+				seenP := map[string]bool{}
+				for _, p := range resp.Frame.Peers {
+					if p != nil && seenP[p.PubKeyString()] {
+						c.res.count("gossip_rounds_after_an_adopted_forgery_listing_a_validator_twice", 1)
+						break
+					}
+					if p != nil {
+						seenP[p.PubKeyString()] = true
+					}
+				}
+				if gr.panicked {
+					c.reportPanic("gossip loop after a hostile FastForwardResponse that passes every check", desc, gr)
+					return false
+				}
 			}
 			cu.Node.VerifTransition(_state.CatchingUp)
 		}
@@ -620,6 +648,14 @@ func (c *c08ctx) runJoinResponses(msgs int) bool {
 		}
 		sn.Up = false
 		resp := &bnet.JoinResponse{FromID: g.id(), Accepted: g.rng.Intn(4) != 0, AcceptedRound: g.num(), Peers: g.peerPtrs()}
+		if i%4 == 1 {
+			// a peer list that names real validators, one of them several times
+			a, b := nw.Nodes[0].peer(), nw.Nodes[2].peer()
+			resp.Accepted = true
+			resp.AcceptedRound = 0
+			resp.Peers = [][]*peers.Peer{{a, a}, {a, b, a}, {a, a, a, b}, {b, a, sn.peer(), a}}[g.rng.Intn(4)]
+			c.res.count("hostile_JoinResponse_listing_a_peer_twice", 1)
+		}
 		desc := describeCmd("JoinResponse", resp)
 		c.note(desc)
 		c.res.count("hostile_JoinResponse", 1)
@@ -637,6 +673,22 @@ func (c *c08ctx) runJoinResponses(msgs int) bool {
 			gr = guard(func() { sn.Node.VerifGossip(nw.Nodes[0].peer()) })
 			if gr.panicked {
 				c.reportPanic("gossip after a hostile JoinResponse", desc, gr)
+				return false
+			}
+			// and what its background loop does: ask the real peer selector for
+			// a target, gossip, record the outcome, ask again
+			gr = guard(func() {
+				for k := 0; k < 4; k++ {
+					p := sn.Core.SelectorNext()
+					c.res.count("peer_selections_after_a_hostile_JoinResponse", 1)
+					if p == nil {
+						continue
+					}
+					sn.Core.SelectorUpdateLast(p.ID(), k%2 == 0)
+				}
+			})
+			if gr.panicked {
+				c.reportPanic("peer selection after a hostile JoinResponse", desc, gr)
 				return false
 			}
 		}
@@ -795,6 +847,15 @@ func (c *c08ctx) consistentForgery() *bnet.FastForwardResponse {
 	byzPeer := c.byz.peer()
 	f := g.frame()
 	f.Peers = []*peers.Peer{byzPeer}
+	switch g.rng.Intn(5) {
+	case 1:
+		// the same validator listed several times
+		f.Peers = []*peers.Peer{byzPeer, byzPeer}
+		c.res.count("hostile_FastForwardResponse_listing_a_validator_twice", 1)
+	case 2:
+		f.Peers = []*peers.Peer{byzPeer, c.victim.peer(), byzPeer}
+		c.res.count("hostile_FastForwardResponse_listing_a_validator_twice", 1)
+	}
 	switch g.rng.Intn(4) {
 	case 0:
 		f.Round = g.rng.Intn(100)
